@@ -8,6 +8,7 @@ import adapter
 import core
 import gen
 import world
+from pool import HASH_BASE as HASH_BASE_
 
 STR = [0, 1, 2, 3, 4, 6, 7]          # plain strings
 FLAV = [12, 13, 15, 17, 18, 19, 20, 21, 23, 24, 25, 26, 27]  # ints, tuples, dataclass, DictWrapper, EqObj, Plain
@@ -178,13 +179,59 @@ def befores(rng, impl, ti, parent_path, *, malformed=False):
     return c
 
 
+def del_keys(impl, ti, labels=()):
+    """every kind of key for `del tree[key]` on tree ti, by category (JSON-serialisable descriptions, see
+    `ImplWorld.del_key`): data objects present in the tree (unique ones and clone-ambiguous ones), the data_ids in use
+    as explicit keys, ids / objects that are not in use, a `Node`, and — when the tree has a calc_data_id hook — the
+    objects for which the hook raises."""
+    pool = impl.pool
+    t = impl.trees[ti]
+    nodes = list(t)
+    out = {"data": [], "id": [], "unused": [], "node": [], "raising": []}
+    seen = set()
+    for n in nodes:
+        try:
+            a = pool.index_of(n.data)
+        except KeyError:
+            continue
+        if a not in seen:
+            seen.add(a)
+            out["data"].append({"a": a})
+    dids = []
+    for n in nodes:
+        d = n.data_id
+        if d in dids:
+            continue
+        dids.append(d)
+        c = pool.canon_did(d)
+        if c != d:   # a real (per-process) hash value: name it by the pool object that has it
+            out["id"].append({"hash_of": c - HASH_BASE_})
+        elif isinstance(d, (int, str)) and not isinstance(d, bool):
+            out["id"].append({"did": d})
+    for d in (4242, "nope", -1, 0, ""):
+        if d not in dids:
+            out["unused"].append({"did": d})
+    for a in labels:
+        if a not in seen:
+            out["unused"].append({"a": a})
+    paths = paths_of(t)
+    if paths:
+        out["node"].append({"node": paths[0]})
+        if len(paths) > 1:
+            out["node"].append({"node": paths[-1]})
+    for o, d in (impl.hooks[ti] or []):
+        if d is None:
+            out["raising"].append({"a": o})
+    return out
+
+
 def random_op(rng, impl, ti, *, labels, malformed=0.1, typed=False, ops=None, did_rate=0.15, dids=(1001, 1002, "x", "y", 7, 0, "")):
     """one random (mostly valid) op on tree ti, based on the implementation's current shape"""
     t = impl.trees[ti]
     paths = paths_of(t)
     allp = [[]] + paths
     mal = rng.random() < malformed
-    kinds = ops or ["add"] * 5 + ["shortcut"] * 2 + ["addnode"] * 2 + ["addtree", "copykids", "move", "move", "move", "remove", "remove", "removechildren", "sort", "setdata", "setdata", "meta", "filter"]
+    kinds = ops or ["add"] * 5 + ["shortcut"] * 2 + ["addnode"] * 2 + ["addtree", "copykids", "move", "move", "move", "remove", "remove", "removechildren", "sort", "setdata", "setdata", "meta", "filter", "del", "del"]
     k = rng.choice(kinds)
     if not paths and k not in ("add", "addtree"):
         k = "add"
@@ -277,6 +324,13 @@ def random_op(rng, impl, ti, *, labels, malformed=0.1, typed=False, ops=None, di
         if rng.random() < 0.3:
             op["tree_api"] = False
         return op
+    if k == "del":
+        ks = del_keys(impl, ti, labels)
+        cats = [c for c in ("data", "data", "data", "id", "id", "unused", "node", "raising", "raising") if ks[c]]
+        if mal:
+            cats = [c for c in ("unused", "node", "raising", "data") if ks[c]]
+        key = rng.choice(ks[rng.choice(cats)])
+        return dict({"op": "w.del", "t": ti}, **key)
     if k == "remove":
         return {"op": "w.remove", "t": ti, "n": rng.choice(paths), "keep": rng.random() < 0.4, "clones": rng.random() < 0.3}
     if k == "removechildren":
